@@ -226,3 +226,11 @@ def run(run, tier):
                      'the four discrete-time simulators, random graphs <= 7 nodes incl. directed, table-driven outcomes, with/without test_recovery, 0-3 initial infected, '
                      '0-2 initial recovered, tmin in {0,5,-3,5/2,..}, whole-step horizons; both return modes; extracted dwf_rowsb / dinit_okb / dtx_okb / consistent_b on the outputs',
                      [], {'simulators': per})
+
+
+if __name__ == '__main__':
+    # python -m harness.discx <replay.json>: re-execute a recorded discx replay against /repo (or EON_REPO).
+    # (./check replay routes through harness/c0x.py, whose replay functions do not know this module yet: one
+    #  dispatch line `if rp['replay'].get('discx'): from . import discx; return discx.replay(rp)` there would do.)
+    import sys, json
+    sys.exit(replay(json.load(open(sys.argv[1]))))
